@@ -21,7 +21,9 @@ RULE = ("col: 2-3 repositories (app->lib; app->lib,util; app->mid->lib), compone
         "branches forking/merging, pins moving by 0-2 component builds and never decreasing along a path (25%: the oldest "
         "parent commits pin a version that is no build tag), tags on half the commits, commit times tight (30%), spread "
         "inside the windows (60%) or anywhere (10%, not judged), both supply orders; ord: random dependency graphs over <=6 repositories incl. cycles, self-dependencies and "
-        "unknown components, shuffled supply order; every collection is analysed twice (the second answer must equal the "
+        "unknown components, shuffled supply order; parent and mid branch names also with numbers of different width "
+        "(release/5.9 vs release/5.10); the component map of a repository is configured on the class, on the object only, or "
+        "on the object with a contradicting class-level map (a third each); every collection is analysed twice (the second answer must equal the "
         "first). non-trivial = col with a non-empty included_at somewhere, or ord with >=2 "
         "repositories; distinct by protocol line")
 TRUSTED = ["tests/mock_git.py (synthetic git objects fed to the real ak.ghist code)",
@@ -86,12 +88,28 @@ def dec_repo(tok):
 
 
 # ------------------------------------------------------------------ real code
-def _classes(deps_by_name):
+def _classes(deps_by_name, cfg="class", loc=lambda d: "DEP_" + d):
+    """factories of ProjectRepo objects whose component map (`_COMPONENTS_VERSIONS_LOCATIONS`) is configured
+    * "class"    : on the class (a subclass per repository, as in the package's tests),
+    * "instance" : on the object only (one generic class, the class-level map is the empty default),
+    * "both"     : on the object, while the class carries another map (every other repository: cycles everywhere) -
+                   the object's own attribute is the one that counts"""
     k = G.repo_classes()
     out = {}
     for name, deps in deps_by_name.items():
-        out[name] = type("Repo_" + name, (k["StdTestRepo"],),
-                         {"_COMPONENTS_VERSIONS_LOCATIONS": {d: "DEP_" + d for d in deps}})
+        real = {d: loc(d) for d in deps}
+        if cfg == "class":
+            out[name] = type("Repo_" + name, (k["StdTestRepo"],), {"_COMPONENTS_VERSIONS_LOCATIONS": real})
+            continue
+        attrs = {} if cfg == "instance" else \
+            {"_COMPONENTS_VERSIONS_LOCATIONS": {d: loc(d) for d in deps_by_name if d != name}}
+        cls = type("Repo_" + name, (k["StdTestRepo"],), attrs)
+
+        def make(*a, _cls=cls, _real=real):
+            obj = _cls(*a)
+            obj._COMPONENTS_VERSIONS_LOCATIONS = _real
+            return obj
+        out[name] = make
     return out
 
 
@@ -116,9 +134,9 @@ def _repo_text(rid, rg):
     return " ".join(out)
 
 
-def run_col(repos):
+def run_col(repos, cfg="class"):
     from ak.ghist import ReposCollection
-    cls = _classes({r["name"]: r["deps"] for r in repos})
+    cls = _classes({r["name"]: r["deps"] for r in repos}, cfg)
     objs = {}
     for r in repos:
         objs[r["name"]] = cls[r["name"]](r["name"], G.mock_repo(r["hist"], r["name"], TEXT, pins_file="DEP_"), G.REMOTE)
@@ -138,6 +156,7 @@ class SecondCallDiffers(Exception):
 def impl(case):
     logging.disable(logging.CRITICAL)
     out = []
+    cfg = case.get("meta", {}).get("cfg", "class")
     for line in case["lines"]:
         op, *args = line.split()
         try:
@@ -148,19 +167,16 @@ def impl(case):
                     i, d = tok.split("@")
                     deps[NAMES[int(i)] if int(i) < len(NAMES) else "n%d" % int(i)] = \
                         [] if d == "-" else [(NAMES[int(x)] if int(x) < len(NAMES) else "zz%d" % int(x)) for x in d.split(",")]
-                k = G.repo_classes()
 
                 class FakeGit:
                     remotes = {}
-                objs = {}
-                for name, ds in deps.items():
-                    c = type("R_" + name, (k["StdTestRepo"],), {"_COMPONENTS_VERSIONS_LOCATIONS": {d: "DEP" for d in ds}})
-                    objs[name] = c(name, FakeGit(), G.REMOTE)
+                cls = _classes(deps, cfg, loc=lambda d: "DEP")
+                objs = {name: cls[name](name, FakeGit(), G.REMOTE) for name in deps}
                 rc = ReposCollection(objs)
                 out.append("ok " + (",".join(str(NAMES.index(x)) for x in rc.sorted_repos) or "-"))
             elif op == "col":
                 repos = [dec_repo(t) for t in args[1:]]
-                order, data = G.with_timeout(4, run_col, repos)
+                order, data = G.with_timeout(4, run_col, repos, cfg)
                 out.append("ok o=%s %s" % (",".join(str(NAMES.index(x)) for x in order) or "-",
                                            " ".join(_repo_text(rid, data[rid]) for rid in order)))
             else:
@@ -540,6 +556,9 @@ def add_pins_dag(rng, parent_commits, comp_name, comp_commits, comp_head, monoto
 LIB_LINES = ["release/10.20", "release/10.21", "master"]
 APP_LINES = ["release/5.1", "release/5.2", "master"]
 MID_LINES = ["release/7.1", "release/7.3"]
+# numbers of different width: the numeric order is not the lexicographic one
+APP_LINES_W = [["release/5.9", "release/5.10", "master"], ["release/9.1", "release/10.1", "master"]]
+MID_LINES_W = ["release/7.9", "release/7.10"]
 
 
 def gen_col(rng, shape, lib_lines):
@@ -554,15 +573,16 @@ def gen_col(rng, shape, lib_lines):
     lib[0]["tagged"] = True
     if shape.startswith("dagapp"):
         n = rng.randint(4, 9)
-        app, aheads = gen_dag_repo(rng, "release/5.2", n, ptag=0.8, pmatch=0.2, pmerge=0.45)
+        hi, lo = rng.choice([("release/5.2", "release/5.1"), ("release/5.10", "release/5.9")])
+        app, aheads = gen_dag_repo(rng, hi, n, ptag=0.8, pmatch=0.2, pmerge=0.45)
         for c in app:
-            c["line"] = "release/5.2"
+            c["line"] = hi
         if rng.random() < 0.5:
-            aheads.append(["release/5.1", rng.randrange(n)])
+            aheads.append([lo, rng.randrange(n)])
         if rng.random() < 0.3:
             aheads.append(["master", rng.randrange(n)])
     else:
-        app, aheads = gen_repo(rng, 3, APP_LINES)
+        app, aheads = gen_repo(rng, 3, APP_LINES if rng.random() < 0.5 else rng.choice(APP_LINES_W))
     repos = []
     if shape.startswith("dag"):
         add_pins_dag(rng, app, "lib", lib, lheads[0][1], monotone=(shape != "dag-numeric"))
@@ -582,7 +602,7 @@ def gen_col(rng, shape, lib_lines):
                  {"name": "util", "deps": [], "hist": None}]
         raw = {"app": (app, aheads), "lib": (lib, lheads), "util": (util, uheads)}
     else:   # chain app -> mid -> lib
-        mid, mheads = gen_repo(rng, 2, MID_LINES, pmerge=0.1, pmatch=0.2)
+        mid, mheads = gen_repo(rng, 2, MID_LINES if rng.random() < 0.5 else MID_LINES_W, pmerge=0.1, pmatch=0.2)
         mid[0]["tagged"] = True
         add_pins(rng, mid, "lib", lib)
         add_pins(rng, app, "mid", mid)
@@ -655,8 +675,11 @@ def add_col_times(rng, repos, mode=None):
         place(r["name"])
 
 
-def mk_case(repos, kind):
-    return {"lines": [enc_col(repos)], "meta": {"kind": kind}}
+CFGS = ["class", "instance", "both"]
+
+
+def mk_case(repos, kind, cfg="class"):
+    return {"lines": [enc_col(repos)], "meta": {"kind": kind, "cfg": cfg}}
 
 
 def gen_ord(rng, nmax=6):
@@ -668,20 +691,20 @@ def gen_ord(rng, nmax=6):
         ds = [b for b in ids + [9] if rng.random() < dens]
         rng.shuffle(ds)
         toks.append("%d@%s" % (a, ",".join(str(x) for x in ds) or "-"))
-    return {"lines": ["ord " + " ".join(toks)], "meta": {"kind": "ord"}}
+    return {"lines": ["ord " + " ".join(toks)], "meta": {"kind": "ord", "cfg": rng.choice(CFGS)}}
 
 
 def gen_cases(rng, tier):
     n_col = 1500 if tier == "quick" else 30000
     for k in range(n_col):
         shape = ["app-lib", "app-lib", "app-lib-util", "chain"][k % 4]
-        yield mk_case(gen_col(rng, shape, 1 if k % 3 else 2), shape + ("/1line" if k % 3 else "/2lines"))
+        yield mk_case(gen_col(rng, shape, 1 if k % 3 else 2), shape + ("/1line" if k % 3 else "/2lines"), rng.choice(CFGS))
     for k in range(n_col // 2):
         shape = "dag-monotone" if k % 4 else "dag-numeric"
-        yield mk_case(gen_col(rng, shape, 1), shape)
+        yield mk_case(gen_col(rng, shape, 1), shape, rng.choice(CFGS))
     for k in range(n_col // 2):
         shape = "dagapp-linlib" if k % 3 else "dagapp-daglib"
-        yield mk_case(gen_col(rng, shape, 1), shape)
+        yield mk_case(gen_col(rng, shape, 1), shape, rng.choice(CFGS))
     for _ in range(3000 if tier == "quick" else 40000):
         yield gen_ord(rng)
 
@@ -699,7 +722,7 @@ def search_cases(rng, tier):
             yield {"lines": ["ord " + " ".join("%d@%s" % (a, ",".join(map(str, deps[a])) or "-") for a in perm)],
                    "meta": {"kind": "search-ord"}}
     for k in range(2000):
-        yield mk_case(gen_col(rng, "app-lib", 1), "search-col")
+        yield mk_case(gen_col(rng, ["app-lib", "chain"][k % 2], 1), "search-col", CFGS[k % 3])
 
 
 def shrink(case):
@@ -786,6 +809,7 @@ def corpus():
 
 def tags(case, replies):
     yield case.get("meta", {}).get("kind", "?")
+    yield "components-map-on:" + case.get("meta", {}).get("cfg", "class")
     if case["lines"][0].startswith("col"):
         rs = [dec_repo(t) for t in case["lines"][0].split()[2:]]
         if not in_windows(rs):
